@@ -129,8 +129,8 @@ Definition reject_all : validator := fun _ _ => false.
 Definition validator_of (s : string) : validator :=
   match assoc_get s validators with Some v => v | None => reject_all end.
 
-(* custom rules transcribed in Model/C15_Config.v (custom_load) and the hash of the function they were read from *)
+(* custom rules that are NOT translated (Gen/ConfigCustoms.v has the translated ones): transcribed by hand in
+   Model/C15_Config.v (custom_load), pinned to the hash of the function they were read from (restapi tlsOptions) *)
 Definition expected_custom_hash : list (string * string) := [
-  ("crdt.trusted_peers", "6630fcf047d1c4b7"); ("crdt.trusted_peers/save", "4d4b5dc0aef16f34");
   ("restapi.ssl_cert_file", "6edbe991f90ce542"); ("restapi.ssl_key_file", "6edbe991f90ce542")
 ].
